@@ -429,5 +429,60 @@ pub fn c05_families(thorough: bool) -> Vec<(String, Vec<State>, bool)> {
         }
         fams.push((format!("L64 lattice +-1 deviation 3{}", if periodic { "P" } else { "R" }), sts, false));
     }
+    // (B4) Fibonacci shells: n generators on one sphere up to rounding (every four of them are co-spherical with every
+    // other one), with and without a generator at the centre
+    {
+        let b = boxes[0];
+        let mut sts = vec![];
+        let sizes: &[usize] = if thorough { &[4, 6, 8, 12, 20, 30, 40, 60, 80, 100, 150, 200, 300] } else { &[8, 20, 40, 80, 200] };
+        for &n in sizes {
+            for with_centre in [true, false] {
+                let c = b.anchor + 0.5 * b.width;
+                let mut gens = if with_centre { vec![c] } else { vec![] };
+                let golden = std::f64::consts::PI * (3. - 5f64.sqrt());
+                for i in 0..n {
+                    let z = 1. - 2. * (i as f64 + 0.5) / n as f64;
+                    let r = (1. - z * z).sqrt();
+                    let phi = golden * i as f64;
+                    gens.push(c + 0.25 * v3(r * phi.cos(), r * phi.sin(), z) * b.width);
+                }
+                sts.push(State { id: format!("3R|b0|fib{}{}", n, if with_centre { "+centre" } else { "" }), dim: 3, periodic: false, anchor: b.anchor, width: b.width, gens });
+            }
+        }
+        fams.push(("B4:Fibonacci shells on one sphere (co-spherical up to rounding) 3R|b0".to_string(), sts, true));
+    }
+    // (E) small length scales with wall contact: the lattice alphabets (generators on walls, edges, corners) in the tiny
+    // box, and a ladder of scales 2^-8 .. 2^-48 for a few witness states (where does the absolute term of the filter's
+    // error bound start to matter?)
+    {
+        let bt = scaled_boxes()[0];
+        let pool = lattice_points(L3A, &bt, 3, false);
+        let sts: Vec<State> = subsets_upto(pool.len(), if thorough { 3 } else { 2 }).iter().map(|s| make_state(3, false, &bt, "L3a", &pool, s)).collect();
+        fams.push(("E:tiny box 3R|bt|L3a (generators on walls, edges, corners)".to_string(), sts, true));
+        let pool2 = lattice_points(Lattice { name: "L2h", m: 2 }, &bt, 2, false);
+        let sts: Vec<State> = subsets_upto(pool2.len(), 3).iter().map(|s| make_state(2, false, &bt, "L2h", &pool2, s)).collect();
+        fams.push(("E:tiny box 2R|bt|L2h".to_string(), sts, true));
+        let pool1 = lattice_points(L1, &bt, 1, false);
+        let sts: Vec<State> = subsets_upto(pool1.len(), 3).iter().map(|s| make_state(1, false, &bt, "L1", &pool1, s)).collect();
+        fams.push(("E:tiny box 1R|bt|L1".to_string(), sts, true));
+        let mut ladder = vec![];
+        for k in [8, 16, 20, 24, 26, 28, 30, 32, 34, 36, 40, 44, 48] {
+            let t = (2f64).powi(-k);
+            let name: &'static str = Box::leak(format!("s{}", k).into_boxed_str());
+            let b = BoxSpec { name, anchor: v3(0., 0., 0.), width: v3(t, 2. * t, t) };
+            let pool = lattice_points(L3A, &b, 3, false);
+            for sub in [vec![5usize, 9], vec![0, 14], vec![0, 22], vec![0], vec![13], vec![4, 13, 22]] {
+                ladder.push(make_state(3, false, &b, "L3a", &pool, &sub));
+            }
+            let gp = generic_points(&b, 3);
+            ladder.push(make_state(3, false, &b, "G", &gp, &[0, 1, 2]));
+        }
+        fams.push(("E:scale ladder 2^-8..2^-48, witness states with and without wall contact".to_string(), ladder, true));
+    }
+    // (D) medium / large exact lattices and general-position pools with <= r generators removed, and big cells
+    for (desc, sts) in medium_families(thorough, &[1, 2, 3], &[false, true]) {
+        fams.push((format!("D:{}", desc), sts, false));
+    }
+    fams.push(("D:big cells (axis pair + ring, prism + neighbour above, jittered shells)".to_string(), bigcell_family(thorough), true));
     fams
 }
